@@ -193,6 +193,55 @@ func VerifC18_MutateOriginal() {
 	vx.Cover("done", true)
 }
 
+// genScribble adds a member to every gen.Object and overwrites every
+// element of every gen.Array of n.
+func genScribble(n gen.Node) {
+	switch tn := n.(type) {
+	case gen.Array:
+		for i := range tn {
+			genScribble(tn[i])
+			tn[i] = gen.String("scribbled")
+		}
+	case gen.Object:
+		for k, e := range tn {
+			genScribble(e)
+			tn[k] = gen.String("scribbled")
+		}
+		tn["added"] = gen.True
+	}
+}
+
+// VerifC18_GenDup: gen Dup shares nothing with its receiver: scribbling
+// over the duplicate (or the original) leaves the other unchanged.
+func VerifC18_GenDup() {
+	shape := vx.Choose("shape", numCShapes)
+	which := vx.Choose("scribble", 2)
+	vx.Key("shape", shape)
+	vx.Key("scribble", which)
+	orig := cTree(shape)
+	pristine := vref.Copy(orig)
+	n := alt.Generify(orig, &ojg.Options{})
+	if n == nil {
+		vx.Assert("dup-of-nil", true)
+		return
+	}
+	var d gen.Node
+	pan := vx.Catch(func() { d = n.Dup() })
+	vx.Assert("no-panic", !pan)
+	if pan {
+		return
+	}
+	vx.Assert("dup-equals-original", vref.TreeEqual(pristine, simplifyNode(d)))
+	if which == 0 {
+		genScribble(d)
+		vx.Assert("original-survives-mutation-of-dup", vref.TreeEqual(pristine, simplifyNode(n)))
+	} else {
+		genScribble(n)
+		vx.Assert("dup-survives-mutation-of-original", vref.TreeEqual(pristine, simplifyNode(d)))
+	}
+	vx.Cover("done", true)
+}
+
 func simplifyNode(n gen.Node) any {
 	if n == nil {
 		return nil
